@@ -189,9 +189,9 @@ static void run_all(const std::string& text, const std::string& valid, const MV&
 #ifdef VF_FUZZ
   const bool each = false;  // libFuzzer runs its own leak detection after iterations with unbalanced malloc/free
 #else
-  const bool each = !c.counting;
+  const bool each = c.replay;
 #endif
-  if (__lsan_do_recoverable_leak_check && (each || (g_n % 512) == 0)) {
+  if (__lsan_do_recoverable_leak_check && (each || (c.counting && (g_n % 512) == 0))) {
     if (__lsan_do_recoverable_leak_check())
       c.fail("LeakSanitizer: memory leaked (by this case or one of the previous 512) | text=" + printable(text, 200));
   }
